@@ -406,7 +406,7 @@ func TestC19(t *testing.T) {
 	small := []int{0, 12, 16, 100}
 	big := []int{0, 12, 100, 1000, 1024, 1028, 5000}
 	// small cases: every merge
-	rec.Suite("small-all-merges", rec.N(60, 3000), func(c *ev.Case) {
+	rec.Suite("small-all-merges", rec.N(60, 10000), func(c *ev.Case) {
 		ns := 1 + c.R.IntN(3)
 		cc := c19Build(c, ns, 2, 3, small)
 		total := 0
@@ -443,7 +443,7 @@ func TestC19(t *testing.T) {
 		}
 	})
 	// large cases: random merges
-	rec.Suite("large-random-merges", rec.N(600, 60000), func(c *ev.Case) {
+	rec.Suite("large-random-merges", rec.N(600, 200000), func(c *ev.Case) {
 		ns := []int{1, 2, 3, 16}[c.R.IntN(4)]
 		cc := c19Build(c, ns, 6, 6, big)
 		c.Class("large/streams=%d", ns)
